@@ -28,6 +28,7 @@ from fractions import Fraction
 import numpy as np
 
 import vlib
+import tx_c18_bookkeeping
 
 HEADER = ("From mathcomp Require Import all_ssreflect.\n"
           "From Coq Require Import ZArith.\n"
@@ -580,7 +581,8 @@ def gen_pinv_case(rng):
             "rho": [[[rng.randint(-3, 3), rng.randint(-3, 3)] for _ in range(n)] for _ in range(n)],
             "LIQ": [[[rng.randint(-3, 3), rng.randint(-3, 3)] for _ in range(N)] for _ in range(N)],
             "method": rng.choice(["splu", "solve", "lstsq"]),
-            "w": rng.choice([None, 0.5])}
+            "w": rng.choice([None, 0.5]),
+            "use_rcm": rng.random() < 0.5, "rcm_order": rand_perm(rng, N)}
 
 
 def impl_pinv(case):
@@ -593,22 +595,34 @@ def impl_pinv(case):
     A = qt.Qobj(L, dims=[[d, d], [d, d]])
     rec = {}
 
+    import scipy.sparse.csgraph as csg
+    rec["rcm"] = False
+
     def fake_solve(Lm, b, method=None, options={}):
         rec["A"] = np.array(Lm.to_array())
         rec["Q"] = np.array(b.to_array())
         rec["method"] = method
         return _data.Dense(LIQ.copy())
-    with Patch((_data, "solve", fake_solve)), warnings.catch_warnings():
+
+    def fake_rcm(M, *a, **k):
+        rec["rcm"] = True
+        return np.array(case["rcm_order"], dtype=np.int32)
+    with Patch((_data, "solve", fake_solve), (csg, "reverse_cuthill_mckee", fake_rcm)), \
+            warnings.catch_warnings():
         warnings.simplefilter("ignore")
-        R = qt.pseudo_inverse(A, qt.Qobj(rho, dims=[d, d]), w=case["w"], method=case["method"])
+        R = qt.pseudo_inverse(A, qt.Qobj(rho, dims=[d, d]), w=case["w"], method=case["method"],
+                              use_rcm=bool(case.get("use_rcm")))
     rec["R"] = R.full()
     rec["dims"] = R.dims
     return rec
 
 
-def pinv_expr(case):
+def pinv_expr(case, rec=None):
     n = int(np.prod(case["dims"]))
     f = lambda M: gzmat([[complex(a, b) for a, b in row] for row in M])
+    if rec is not None and rec.get("rcm"):
+        return "gz_pinv_rcm_R %d%%nat %s %s %s" % (n, cnatseq(case["rcm_order"]),
+                                                  f(case["rho"]), f(case["LIQ"]))
     return "gz_pinv_R %d%%nat %s %s" % (n, f(case["rho"]), f(case["LIQ"]))
 
 
@@ -739,19 +753,58 @@ def phase_symptom(M, rho_ex):
     return False
 
 
-def run_one(s, cfg, fmt, as_liouv, seed):
+def _snapshot(objs):
+    return [(type(o.data).__name__, o.dims, np.array(o.data.to_array(), copy=True), o._isherm)
+            for o in objs]
+
+
+def run_one(s, cfg, fmt, as_liouv, seed, guard=None):
+    """one real steadystate() call.  With guard (a list), the operands handed
+    in are compared bitwise before/after and the call is repeated on the very
+    same objects: symptoms are appended to guard."""
     import qutip as qt
     method, solver, kw = cfg
     Hq, Cq = sys_qobjs(s, fmt)
-    np.random.seed(seed % (2 ** 31))
-    with warnings.catch_warnings():
-        warnings.simplefilter("ignore")
-        if as_liouv == "L":
-            return qt.steadystate(qt.liouvillian(Hq, Cq), method=method, solver=solver, **kw)
-        if as_liouv == "L+c":
-            return qt.steadystate(qt.liouvillian(Hq, Cq[:1]), Cq[1:], method=method,
-                                  solver=solver, **kw)
-        return qt.steadystate(Hq, Cq, method=method, solver=solver, **kw)
+    if as_liouv == "L":
+        A, cl = qt.liouvillian(Hq, Cq), []
+    elif as_liouv == "L+c":
+        A, cl = qt.liouvillian(Hq, Cq[:1]), Cq[1:]
+    else:
+        A, cl = Hq, Cq
+    before = _snapshot([A] + cl) if guard is not None else None
+    ncl = len(cl)
+
+    def call():
+        np.random.seed(seed % (2 ** 31))
+        with warnings.catch_warnings():
+            warnings.simplefilter("ignore")
+            return qt.steadystate(A, cl, method=method, solver=solver, **dict(kw))
+    r = call()
+    if guard is not None:
+        after = _snapshot([A] + cl)
+        if len(cl) != ncl:
+            guard.append("mutates-input:c_ops-list-length")
+        for k, (b0, a0) in enumerate(zip(before, after)):
+            if b0[0] != a0[0] or b0[1] != a0[1] or b0[3] != a0[3] or not np.array_equal(b0[2], a0[2]):
+                guard.append("mutates-input:" + ("A" if k == 0 else "c_ops"))
+                break
+        r2 = call()
+        # bitwise for the deterministic routes; ARPACK (random start vector),
+        # the propagator method (random initial state) and Krylov solvers are
+        # compared within their own tolerance
+        base = method.split("-")[0]
+        atol = 0.0
+        if base == "propagator":
+            atol = 1e-3
+        elif base == "eigen" and kw.get("sparse", True):
+            atol = 1e-5
+        elif solver in ITER_SOLVERS or ("-" in method and method.split("-")[1] in ITER_SOLVERS):
+            atol = 1e-3
+        same = np.array_equal(r.full(), r2.full()) if atol == 0.0 else \
+            bool(np.abs(r.full() - r2.full()).max() <= atol)
+        if not same or r.dims != r2.dims:
+            guard.append("second-call-differs")
+    return r
 
 
 def oracle_system(ctx, s, cfgs, rng, stats, fmts):
@@ -781,8 +834,9 @@ def oracle_system(ctx, s, cfgs, rng, stats, fmts):
         seed = rng.randrange(1 << 30)
         key = {"method": method, "solver": solver, "opts": sorted(kw.keys())}
         stats["runs"] += 1
+        guard = [] if (stats["systems"] < 2 or rng.random() < 0.3) else None
         try:
-            r = run_one(s, cfg, fmt, as_l, seed)
+            r = run_one(s, cfg, fmt, as_l, seed, guard)
         except Exception as e:
             msg = "%s: %s" % (type(e).__name__, str(e)[:120])
             itr = (solver in ITER_SOLVERS or method.endswith(tuple(ITER_SOLVERS)))
@@ -810,6 +864,17 @@ def oracle_system(ctx, s, cfgs, rng, stats, fmts):
                           {"system": s, "cfg": [method, solver, kw], "fmt": fmt,
                            "input": as_l, "seed": seed, "error": msg})
             continue
+        if guard is not None:
+            stats["guarded_runs"] = stats.get("guarded_runs", 0) + 1
+        if guard:
+            # a steady state of a generator the call has altered is not a fixed
+            # point of the one the caller holds
+            ctx.violation("steadystate:" + method.split("-")[0],
+                          dict(key, symptom=guard[0], fmt=fmt, input=as_l),
+                          "steadystate(%s, solver=%s, %s) on %s/%s input: %s"
+                          % (method, solver, kw, fmt, as_l, guard),
+                          {"system": s, "cfg": [method, solver, kw], "fmt": fmt, "input": as_l,
+                           "seed": seed, "symptoms": guard, "guard": True})
         bad = check_result(s, L, rho_ex, r, method, solver, loose_tol(kw, solver, fmt))
         ctx.count_case(("oracle", json.dumps(s, sort_keys=True), method, solver,
                         json.dumps(kw, sort_keys=True), fmt, as_l), nontrivial=True)
@@ -1236,6 +1301,12 @@ def run(ctx):
         "SuperLU/iterative solvers and preconditioners are outside the theorems [NUM]",
         "hypotheses tp (vec(1)^T L = 0, property C07) and hp (Hermiticity preservation) of the "
         "generator; `null_one_dim` (unique stationary state) for the eigen/svd theorems",
+        "translator tools/tx_c18_bookkeeping.py (ast; supported subset = the current statement shapes "
+        "of _permute_wbm/_permute_rcm/_reverse_rcm and of the assembly/reordering/post-processing part "
+        "of _steadystate_direct; fails closed); the guard `isinstance(L, CSR)` around the reorderings "
+        "and the automatic weight are not translated",
+        "abstract vector norm (absolutely homogeneous, subadditive, invariant under vec o dag o unvec) "
+        "in C18_power_stopping_rule_residual",
         "Model/C18.v is hand-written; tied to steadystate.py / bofin_solvers.py by exact comparison "
         "of kernel arguments and results under scripted kernels (tools/c18.py); the choice "
         "'permute only when the matrix is CSR' is observed (was the fake RCM/WBM called), not modelled",
@@ -1286,8 +1357,31 @@ def run(ctx):
     def search(failed, log):
         # a proof broke: look for an implementation-level counterexample
         oracle_all(4, random.Random(ctx.seed + 99))
+        if not ctx.violations and any("C18_gen" in str(f) or "make:" in str(f) for f in failed):
+            targeted_search(ctx, "corr:steadystate_direct", "generated bookkeeping term",
+                            random.Random(ctx.seed * 31 + 7), stats)
 
-    vlib.standard_proof_step(ctx, ["Props/C18.vo"], ["Props/C18.v"], search)
+    # (T) regenerate the bookkeeping terms from the current source
+    targets, props = ["Props/C18.vo"], ["Props/C18.v"]
+    try:
+        gen = tx_c18_bookkeeping.generate()
+        ctx.add_obligation("translator:tx_c18_bookkeeping reads _permute_wbm/_permute_rcm/"
+                           "_reverse_rcm/_steadystate_direct", True)
+        ctx.sample({"generated": gen["text"][gen["text"].index("Definition g_permute_wbm"):][:400]})
+        targets = ["Gen/C18_bookkeeping.vo", "Props/C18.vo", "Props/C18_gen.vo"]
+        props = ["Props/C18.v", "Props/C18_gen.v"]
+    except tx_c18_bookkeeping.Unsupported as ex:
+        ctx.add_obligation("translator:tx_c18_bookkeeping reads _permute_wbm/_permute_rcm/"
+                           "_reverse_rcm/_steadystate_direct", False)
+        ctx.cov["obligations"] += len(vlib.theorems_in("Props/C18_gen.v"))
+        before = len(ctx.violations)
+        search(["translator:C18_gen"], str(ex))
+        if len(ctx.violations) == before:
+            ctx.violation("translator:steadystate.py", str(ex)[:120],
+                          "the bookkeeping of steadystate.py left the translated subset: %s; "
+                          "theorems of Props/C18_gen.v are no longer shown" % ex,
+                          {"reason": str(ex)}, found_input=False)
+    vlib.standard_proof_step(ctx, targets, props, search)
 
     # ---------------------------------------------------------- correspondence
     nd = 24 if quick else 160
@@ -1346,7 +1440,7 @@ def run(ctx):
                           "pseudo_inverse with scripted solver raised %s: %s"
                           % (type(e).__name__, str(e)[:200]), {"case": c})
             precs.append(None)
-    pexprs = [pinv_expr(c) for c in pcases]
+    pexprs = [pinv_expr(c, r) for c, r in zip(pcases, precs)]
     hcases = [{"n": 2, "depth": 1, "seed": rng.randrange(1 << 30)},
               {"n": 2, "depth": 2, "seed": rng.randrange(1 << 30)}]
     if not quick:
@@ -1457,7 +1551,19 @@ def run(ctx):
             n = int(np.prod(c["dims"]))
             shift = 1j * (c["w"] if c["w"] else 1e-15)
             Lc = np.array([[complex(a, b) for a, b in row] for row in c["L"]])
-            okA = np.array_equal(rec["A"], Lc + shift * np.eye(n * n))
+            Aexp = Lc + shift * np.eye(n * n)
+            if rec.get("rcm"):
+                # A' = permute.indices(L + s, perm, perm): A'[perm[i], perm[j]] = (L+s)[i, j]
+                pr = list(c["rcm_order"])
+                Ap = np.zeros_like(Aexp)
+                for i in range(n * n):
+                    for j in range(n * n):
+                        Ap[pr[i], pr[j]] = Aexp[i, j]
+                Aexp = Ap
+                Lc = Aexp - shift * np.eye(n * n)
+                dist.setdefault("pinv_rcm", 0)
+                dist["pinv_rcm"] += 1
+            okA = np.array_equal(rec["A"], Aexp)
             if c["w"] is None and c["method"] == "splu":
                 # CSR arithmetic tidies part of the 1e-15j regularisation away
                 # (auto_tidyup, C01 territory); it is a numerical device [NUM]:
@@ -1523,10 +1629,14 @@ def replay(ctx, payload):
         H, C = sys_arrays(s)
         L = liouvillian_np(H, C)
         rho_ex = exact_rho(s)
+        guard = [] if d.get("guard") else None
         try:
-            r = run_one(s, cfg, d.get("fmt", "csr"), d.get("input", "H"), d.get("seed", 0))
+            r = run_one(s, cfg, d.get("fmt", "csr"), d.get("input", "H"), d.get("seed", 0), guard)
         except Exception as e:
             ctx.violation(site, payload["signature"], "raises %s" % e, d)
+            return
+        if guard:
+            ctx.violation(site, payload["signature"], "reproduced: %s" % guard, d)
             return
         bad = check_result(s, L, rho_ex, r, cfg[0], cfg[1],
                            loose_tol(cfg[2], cfg[1], d.get("fmt", "csr")))
